@@ -4,8 +4,8 @@ import (
     "fmt"
     "strings"
     "unicode"
+    "unicode/utf8"
 
-    "github.com/apparentlymart/go-textseg/v13/textseg"
     "Havoc/pkg/profile/yaotl"
     "github.com/zclconf/go-cty/cty"
 )
@@ -696,8 +696,11 @@ func flushHeredocTemplateParts(parts *templateParts) {
                 if len(trimmed) == 0 && strings.HasSuffix(orig, "\n") {
                     spaces = maxInt
                 } else {
+                    // Indentation is counted in white space characters, not in
+                    // grapheme clusters: a combining mark that begins the text
+                    // of a line must not be taken for part of the indentation.
                     spaceBytes := len(lit.Val) - len(trimmed)
-                    spaces, _ = textseg.TokenCount([]byte(orig[:spaceBytes]), textseg.ScanGraphemeClusters)
+                    spaces = utf8.RuneCountInString(orig[:spaceBytes])
                     adjust = append(adjust, lit)
                 }
             } else if _, ok := ttok.(*templateEndToken); ok {
@@ -718,12 +721,10 @@ func flushHeredocTemplateParts(parts *templateParts) {
         // Since we want to count space _characters_ rather than space _bytes_,
         // we can't just do a straightforward slice operation here and instead
         // need to hunt for the split point with a scanner.
-        valBytes := []byte(lit.Val)
         spaceByteCount := 0
         for i := 0; i < minSpaces; i++ {
-            adv, _, _ := textseg.ScanGraphemeClusters(valBytes, true)
+            _, adv := utf8.DecodeRuneInString(lit.Val[spaceByteCount:])
             spaceByteCount += adv
-            valBytes = valBytes[adv:]
         }
         lit.Val = lit.Val[spaceByteCount:]
         lit.SrcRange.Start.Column += minSpaces
